@@ -20,13 +20,15 @@ EXPLANATION = (
     "len/isinstance/any/all, nditer elements, dominating size guards that raise) shows that no construct on the path "
     "is defined only for single values; in-place writes into a defuzzifier result require an array coercion; the "
     "engine-level input matrix is distributed column i -> variable i for 0-, 1- and 2-dimensional inputs; the "
-    "fill-forward loop carries its filler from row to row"
+    "fill-forward loop carries its filler from row to row; kernels apply Python operators to their operands only after scalar() / "
+    "numpy coercion and never through a re-interpreting view (V8); input values reach the variables through the clipping property, and "
+    "only the property setter writes the backing field (who-may-write)"
 )
 ASSUMPTIONS = [
     "numpy ufuncs, np.where and arithmetic operators are elementwise; numeric equality of the two modes is not decided",
     "values typed float (term parameters, ranges, thresholds) are single numbers",
 ]
-FLOORS = {"V1": 90, "V2": 1, "V3": 5, "V4": 2, "V5": 2, "V6": 40, "V8": 50}
+FLOORS = {"V1": 90, "V2": 1, "V3": 6, "V4": 2, "V5": 2, "V6": 40, "V8": 50}
 
 SCALAR_ATTRS = {"value", "_value", "degree", "_degree", "activation_degree", "triggered"}
 SAFE_ATTRS = {"size", "ndim", "shape", "dtype", "name", "__name__", "enabled", "height", "lock_range", "lock_previous"}
@@ -380,6 +382,9 @@ def run(check: Check) -> None:
     inplace_writes(check, scope)
     input_values(check)
     fill_forward(check)
+    from .common import who_may_write
+
+    who_may_write(check, "V3", "_value", {"Variable.value.setter"}, "a batch and its rows must be range-locked by the same code")
 
 
 def cross_row_fixture(check: Check) -> None:
@@ -478,6 +483,11 @@ def input_values(check: Check) -> None:
         return None
 
     assigns = [n for n in cfg.stmt_nodes() for t in cfg.stores_at(n) if isinstance(t, ast.Attribute) and t.attr == "value"]
+    raw = [n for n in cfg.stmt_nodes() for t in cfg.stores_at(n) if isinstance(t, ast.Attribute) and t.attr == "_value"]
+    check.require(not raw, "V3", "Engine.input_values.setter/through-property",
+                  "the input values are assigned through the `value` property (whose setter clips to the range when lock-range is on)" if not raw else
+                  f"`{unparse(raw[0].ast)[:60]}` writes the backing field directly: the range lock of the `value` setter is skipped for batches set through "
+                  "the engine, but applied when the same rows are set one by one", loc(setter, raw[0] if raw else None))
     if not assigns:
         raise AnalysisError("Engine.input_values.setter: no assignment to variable values")
     first = [s for s, _ in cfg.entry.succ][0]
